@@ -186,7 +186,8 @@ def evaluate(chk, jobs, res, prop):
         if "rows" in ep:
             d = cl.compare_rows(cfg, ep, m)
             if d:
-                if prop == "C08": chk.violation("compiled-run-differs-from-dataflow", f"episode {e}: {d}", case)
-                else: chk.broke("correspondence:M3-vs-Graph", f"{d} | job={j['id']}")
+                # the executed rows differ from the generation-ordered dataflow run of the SAME Timings: some step did not run in dependency order (C07) /
+                # some read did not return the scheduled producer's payload (C08)
+                chk.violation("compiled-run-differs-from-dataflow", f"episode {e}: {d}", case)
         elif "record_error" in ep: chk.feat("init_record-unavailable")
     return needs, meta, mods
